@@ -1,7 +1,7 @@
 (* C12 - a log client holding the log key never hands back unverified signed data.
    Property theorems only.  The model (Client/ClientModel.v) follows client/logclient.go,
-   client/getentries.go, client/multilog.go and jsonclient/client.go WITH pending_fixes/C12-1,2,3
-   applied ([patched]); the refutations for the unpatched tree are in Findings/C12Prefix.v.
+   client/getentries.go, client/multilog.go and jsonclient/client.go as they are after the fix commits 8596be2,
+   b4a5930, 15ca5b8 ([patched]); the refutations for the tree before them are in Findings/C12Prefix.v.
    Every theorem is for ALL keys, ALL oracles (sig_ok, key_hash, the X.509 oracles), ALL HTTP
    outcomes (no response / any status / body read or not / any decoded fields) and, for the
    retrying endpoints, ALL sequences of attempts. *)
